@@ -11,7 +11,7 @@
 
 use crate::engine::gen::idx;
 use crate::engine::*;
-use crate::oracles::itproto::{drive, drive_cl, script_strategy, ItOp};
+use crate::oracles::itproto::{drive, drive_cl, drive_pair, script_strategy, ItOp};
 use crate::{ensure, fail};
 use proptest::prelude::*;
 use serde::{Deserialize, Serialize};
@@ -123,9 +123,20 @@ pub mod c08_proto {
         run(drive_cl(&ctx("Horspool"), hp.find_all(t), want.clone(), |x| x, &c.script))?;
         let kmp = KMP::new(p);
         run(drive_cl(&ctx("KMP"), kmp.find_all(t), want.clone(), |x| x, &c.script))?;
+        // two searches with one matcher object alive at the same time (the text and the reversed text)
+        let t2: Vec<u8> = t.iter().rev().copied().collect();
+        let want2 = naive_find(p, &t2);
+        let order: Vec<bool> = c.script.iter().map(|o| matches!(o, ItOp::Nth(_) | ItOp::Skip(_) | ItOp::Hint | ItOp::Count)).collect();
+        let id = |x: usize| x;
+        drive_pair(&ctx("ShiftAnd (and its reversed text)"), sa.find_all(t), want.clone(), id, sa.find_all(&t2[..]), want2.clone(), id, &order).map_err(Stop::Fail)?;
+        drive_pair(&ctx("BNDM (and its reversed text)"), bn.find_all(t), want.clone(), id, bn.find_all(&t2[..]), want2.clone(), id, &order).map_err(Stop::Fail)?;
+        drive_pair(&ctx("BOM (and its reversed text)"), bom.find_all(t), want.clone(), id, bom.find_all(&t2[..]), want2.clone(), id, &order).map_err(Stop::Fail)?;
+        drive_pair(&ctx("Horspool (and its reversed text)"), hp.find_all(t), want.clone(), id, hp.find_all(&t2[..]), want2.clone(), id, &order).map_err(Stop::Fail)?;
+        drive_pair(&ctx("KMP (and its reversed text)"), kmp.find_all(t), want.clone(), id, kmp.find_all(&t2[..]), want2.clone(), id, &order).map_err(Stop::Fail)?;
         let overlap = want.windows(2).any(|w| w[1] - w[0] < p.len());
         let mut pass = Pass::new(want.len() >= 2);
         proto_classes(&mut pass, &c.script, paa, want.len());
+        pass.add_if(!want.is_empty() && !want2.is_empty() && order.iter().any(|&b| b) && order.iter().any(|&b| !b), "two live iterators of one matcher, both with occurrences, interleaved");
         pass.add_if(overlap, "overlapping occurrences");
         Ok(pass)
     }
